@@ -92,6 +92,7 @@ type Unit struct {
 	heapSort map[string]string
 	dry      int
 	epochCtr int
+	ghostTy  map[string]types.Type
 	freshRefs map[string]bool
 	closureSeen map[string]bool
 	heapPtr  map[string]string // heaps whose cells hold references: "cell" | "mapval" | "arr" | "slicecell" | "slicearr" | "slicemapval"
